@@ -35,12 +35,17 @@ type Tok struct {
 	Brk bool
 	// Comma marks a position where an optional ， may be inserted before this token.
 	Comma bool
+	// Semi marks a line break that separates two simple statements of one block
+	// and may be written as ； instead.
+	Semi bool
 }
 
 type renderer struct {
 	ch   Chooser
 	toks []Tok
 	ind  int
+	// lastDeclBlock: the statement just rendered was a 令 written in block form
+	lastDeclBlock bool
 }
 
 // Render produces source text for a program under the chooser's layout.
@@ -248,12 +253,7 @@ func (r *renderer) expr(e Expr, min int) {
 		r.id(v.Class)
 		if len(v.Args) > 0 {
 			r.colon()
-			for i, a := range v.Args {
-				if i > 0 {
-					r.pause()
-				}
-				r.expr(a, 1)
-			}
+			r.args(v.Args)
 		}
 		r.rparen()
 	case MCall:
@@ -300,6 +300,8 @@ func (r *renderer) expr(e Expr, min int) {
 	case This:
 		r.kw("其")
 		r.id(v.Name)
+	case Group:
+		r.braced(v.E)
 	case Assign:
 		if min > 0 {
 			r.braced(e)
@@ -321,10 +323,23 @@ func (r *renderer) expr(e Expr, min int) {
 	}
 }
 
+func groupLeadMCall(e Expr, top bool) Expr {
+	switch v := e.(type) {
+	case MCall:
+		if !top {
+			return Group{E: v}
+		}
+	case Bin:
+		v.L = groupLeadMCall(v.L, false)
+		return v
+	}
+	return e
+}
+
 // root renders the root of a postfix chain / 以-call: only basic forms go bare.
 func (r *renderer) root(e Expr) {
 	switch e.(type) {
-	case Num, Str, Var, List, Dict, Call, New, Index, Member, This:
+	case Num, Str, Var, List, Dict, Call, New, Index, Member, This, Group:
 		r.expr(e, 7)
 	default:
 		r.braced(e)
@@ -336,14 +351,38 @@ func (r *renderer) call(c Call) {
 	r.id(c.Name)
 	if len(c.Args) > 0 {
 		r.colon()
-		for i, a := range c.Args {
-			if i > 0 {
-				r.pause()
-			}
+		r.args(c.Args)
+	}
+	r.rparen()
+}
+
+// endsOpen: the rendering of e ends with a construct that would swallow a
+// following 、 (a 以…（…） call chain without 得到), so e must be braced when a
+// 、 follows it.
+func endsOpen(e Expr) bool {
+	switch v := e.(type) {
+	case MCall:
+		return v.Yield == ""
+	case Bin:
+		return endsOpen(v.R)
+	case Assign:
+		return endsOpen(v.Val)
+	}
+	return false
+}
+
+// args renders a 、-separated expression list.
+func (r *renderer) args(as []Expr) {
+	for i, a := range as {
+		if i > 0 {
+			r.pause()
+		}
+		if i < len(as)-1 && endsOpen(a) {
+			r.braced(a)
+		} else {
 			r.expr(a, 1)
 		}
 	}
-	r.rparen()
 }
 
 func (r *renderer) names(ns []string) {
@@ -357,18 +396,45 @@ func (r *renderer) names(ns []string) {
 
 func (r *renderer) block(body []Stmt) {
 	r.ind++
-	for _, s := range body {
-		r.nl()
+	r.stmts(body, true)
+	r.ind--
+}
+
+func simpleStmt(s Stmt, left bool) bool {
+	switch v := s.(type) {
+	case Decl:
+		return left && !v.Block && len(v.Pairs) == 1
+	case Return, Throw, Break, Continue, ExprStmt:
+		return true
+	}
+	return false
+}
+
+// stmts renders a statement list; a line break between two simple statements
+// is marked as replaceable by ；.
+func (r *renderer) stmts(body []Stmt, leadNL bool) {
+	for i, s := range body {
+		if i > 0 || leadNL {
+			r.nl()
+			if i > 0 && simpleStmt(body[i-1], true) && simpleStmt(s, false) && !r.lastDeclBlock {
+				r.toks[len(r.toks)-1].Semi = true
+			}
+		}
+		r.lastDeclBlock = false
 		r.stmt(s)
 	}
-	r.ind--
 }
 
 func (r *renderer) stmt(s Stmt) {
 	switch v := s.(type) {
 	case Decl:
 		r.kw("令")
-		if v.Block {
+		blk := v.Block
+		if !blk && len(v.Pairs) == 1 && r.ch.Choose("declblock", 2) == 1 {
+			blk = true
+		}
+		if blk {
+			r.lastDeclBlock = true
 			r.colon()
 			r.ind++
 			for _, p := range v.Pairs {
@@ -445,19 +511,16 @@ func (r *renderer) stmt(s Stmt) {
 		r.kw("抛出")
 		r.id(v.Class)
 		r.colon()
-		for i, a := range v.Args {
-			if i > 0 {
-				r.pause()
-			}
-			r.expr(a, 1)
-		}
+		r.args(v.Args)
 		r.bang()
 	case Break:
 		r.kw("结束循环")
 	case Continue:
 		r.kw("继续循环")
 	case ExprStmt:
-		r.expr(v.E, 0)
+		// a statement that starts with 以 is parsed as a 以-statement, so a
+		// 以…（…） call that is only the leftmost operand must be grouped
+		r.expr(groupLeadMCall(v.E, true), 0)
 	case Empty:
 		r.pa("；", ";", false)
 	default:
@@ -496,10 +559,7 @@ func (r *renderer) fn(f Func, head string) {
 		r.kw("输入")
 		r.names(f.Params)
 	}
-	for _, s := range f.Body {
-		r.nl()
-		r.stmt(s)
-	}
+	r.stmts(f.Body, true)
 	for _, c := range f.Catches {
 		r.nl()
 		r.kw("拦截")
@@ -536,9 +596,9 @@ func (r *renderer) program(p *Program) {
 		r.kw("输入")
 		r.names(p.Inputs)
 	}
-	for _, s := range p.Body {
-		line()
-		r.stmt(s)
+	if len(p.Body) > 0 {
+		r.stmts(p.Body, !first)
+		first = false
 	}
 	for _, c := range p.Catches {
 		line()
@@ -570,8 +630,9 @@ func Layout(toks []Tok, ch Chooser) string {
 			}
 		}
 	}
+	mode := ch.Choose("eolmode", 4)
 	eol := func() {
-		switch ch.Choose("eol", 4) {
+		switch (mode + ch.Choose("eol", 4)) % 4 {
 		case 1:
 			b.WriteString("\r\n")
 		case 2:
@@ -585,6 +646,14 @@ func Layout(toks []Tok, ch Chooser) string {
 	curInd := 0
 	for i, t := range toks {
 		if t.K == kNL {
+			if t.Semi && ch.Choose("semi", 2) == 1 {
+				if ch.Choose("punct:；", 2) == 1 {
+					b.WriteString(";")
+				} else {
+					b.WriteString("；")
+				}
+				continue
+			}
 			switch ch.Choose("eolc", 4) {
 			case 1:
 				b.WriteString(" // 注释")
@@ -615,9 +684,25 @@ func Layout(toks []Tok, ch Chooser) string {
 			} else {
 				brk := 0
 				if a.Brk && a.S != "：" && a.S != ":" && a.S != "？" && a.S != "?" {
-					brk = ch.Choose("brk", 2)
+					// a continuation line may be indented deeper unless the
+					// statement's block header (…： + deeper block) ends on it
+					header := false
+					for j := i; j < len(toks); j++ {
+						if toks[j].K == kNL {
+							header = toks[j].Indent > curInd
+							break
+						}
+					}
+					if header {
+						brk = ch.Choose("brk", 2)
+					} else {
+						brk = ch.Choose("brk", 3)
+					}
 				}
 				if brk == 1 {
+					eol()
+					indent(curInd)
+				} else if brk == 2 {
 					eol()
 					indent(curInd + 1)
 				} else {
